@@ -218,7 +218,9 @@ class ODMLReader:
             return self.doc
 
         if self.parser == 'YAML':
-            with open(file) as yaml_data:
+            # YAML and JSON files are UTF-8 (the writer only uses its ASCII
+            # subset): do not depend on the locale's encoding.
+            with open(file, encoding="utf-8") as yaml_data:
                 try:
                     yaml.SafeLoader.add_constructor("tag:yaml.org,2002:python/unicode",
                                                     unicode_loader_constructor)
@@ -240,7 +242,7 @@ class ODMLReader:
             return self.doc
 
         if self.parser == 'JSON':
-            with open(file) as json_data:
+            with open(file, encoding="utf-8") as json_data:
                 try:
                     self.parsed_doc = json.load(json_data)
                 except ValueError as err:  # Python 2 does not support JSONDecodeError
